@@ -239,5 +239,6 @@ def locate_tikz(A, lay, parsed, onodes, snodes, params):
         if not src or not dst:
             problems.append(f"a transfer arrow {arrow['from']} -> {arrow['to']} starts at no transfer node or ends at no anchor")
             continue
-        arrows.append([src[0], dst[0][1], dst[0][0]])
+        # two anchors can coincide (equal centres): every gene anchored at the end point is a candidate
+        arrows.append([src[0], [[g, sp] for sp, g in dst]])
     return events, losses, arrows, problems
